@@ -318,6 +318,8 @@ func c04(c *Ctx) {
 	}
 
 	// R3 must-sanitise before storing attributes
+	c.Rule("R9", "E3 must-pass in loops", "truncate: every character the scan keeps is counted against the limit (range loop: each continuing iteration increments the counter; builder loop: an increment between any two writes)", 1)
+	ruleTruncateCounts(c, ix, "R9", "sdk/trace")
 	c.Rule("R3", "E4 must-sanitise (CFG must-flow)", "every attribute stored into recordingSpan.attributes is the result of truncateAttr and passed the Valid() test", 3)
 	fAttrs := lookupField(ix.Pkg, "recordingSpan", "attributes")
 	trunc := ix.Func("truncateAttr")
